@@ -362,6 +362,10 @@ def enumerate_faults(oplog, user_writes, rng=None, interrupts=12):
     for (k, kind, path, info) in oplog:
         faults.append({"kind": "crash_before", "op": k})
         faults.append({"kind": "crash_after", "op": k})
+        if kind in ("rename", "remove", "link", "close", "open_w"):
+            # KeyboardInterrupt raised between two operations of the protocol (exception handlers and
+            # `finally` blocks of the code under test run, unlike at a process death)
+            faults.append({"kind": "interrupt_op", "op": k})
         if kind == "write":
             ln = info["len"]
             ns = sorted({0, 1, ln // 2, max(ln - 1, 0)} & set(range(0, ln + 1)))
@@ -384,10 +388,13 @@ def enumerate_faults(oplog, user_writes, rng=None, interrupts=12):
 
 
 def random_fault(rng, oplog, user_writes):
-    kind = rng.weighted(["crash_before", "crash_after", "torn", "enospc", "interrupt", "short"], [3, 3, 3, 1, 1, 1])
+    kind = rng.weighted(["crash_before", "crash_after", "torn", "enospc", "interrupt", "short", "interrupt_op"], [3, 3, 3, 1, 1, 1, 1])
     writes = [o for o in oplog if o[1] == "write"]
     if kind in ("torn", "enospc", "short") and not writes:
         kind = "crash_after"
+    if kind == "interrupt_op":
+        tail = [o for o in oplog if o[1] in ("rename", "remove", "close", "open_w", "link")] or oplog
+        return {"kind": kind, "op": rng.choice(tail)[0]}
     if kind in ("crash_before", "crash_after"):
         # bias towards the rename / remove tail where the protocol state changes
         tail = [o for o in oplog if o[1] in ("rename", "remove", "close", "stat", "open_w")]
